@@ -45,12 +45,13 @@ def jobs_for(prop, tier):
             jobs.append(macroh.select_job('sel.p%s' % '_'.join(map(str, pr)), pr, tags=tags))
         jobs.append(macroh.select_job('sel.rejected_first', (5, 5), conf=(1, 0), tags=tags))
     else:
-        for pr in macroh.PATTERNS2:
+        for pr in macroh.PATTERNS2[:2]:
             jobs.append(macroh.select_job('sel.p%s' % '_'.join(map(str, pr)), pr, nin=3, nbody=2, nmatch=2, tags=tags, timeout=1500))
+        jobs.append(macroh.select_job('sel.p7_3', (7, 3), tags=tags, timeout=1500))
         for pr in macroh.PATTERNS3:
             jobs.append(macroh.select_job('sel.p%s' % '_'.join(map(str, pr)), pr, nin=3, nbody=2, nmatch=1, tags=tags, timeout=1500))
         jobs.append(macroh.select_job('sel.extreme', (-2147483648, 2147483647, -1), nin=2, nbody=1, tags=tags, timeout=1500))
-        for cf in ((1, 0), (0, 1), (1, 1)):
+        for cf in ((1, 0), (0, 1)):
             jobs.append(macroh.select_job('sel.rejected_%d%d' % cf, (5, 5), conf=cf, tags=tags, timeout=1500))
         jobs.append(macroh.select_job('sel.rejected_mid', (5, 9, 5), conf=(0, 1, 0), nin=2, nbody=1, tags=tags, timeout=1500))
         jobs.append(macroh.select_job('sel.none', (), tags=tags))
